@@ -1,5 +1,6 @@
-(** C23 — proofs, part 10: the content invariant of a transfer between two different sides,
-    relating the staging buffer, the cursors and the outstanding requests to the two memories.
+(** C23 — proofs, part 10: the content invariant of a transfer (between the two sides, or inside
+    one side with disjoint ranges), relating the staging buffer, the cursors and the outstanding
+    requests to the memories.
     Definitions and the steps of dataTransferMW. *)
 From Coq Require Import Permutation.
 From Akita Require Import Lib.Base C23.Model C23.Mem C23.Proofs C23.Proofs3 C23.Proofs4 C23.Proofs5 C23.Proofs6 C23.Proofs9.
@@ -14,8 +15,7 @@ Definition rid (r : mrsp) : N := match r with MData i _ => i | MDone i => i end.
 (** reads: requests on their way to the source memory and answers on their way back *)
 Definition RB (pss : port) (pends : list mreq) (pread : list (N * N)) (src : list N) (sg : N) : Prop :=
   (forall id a n, In (MRead id a n) (p_out pss ++ pends) -> forall a', aget id pread = Some a' -> a' = a /\ n = sg) /\
-  (forall id x, In (MData id x) (p_in pss) -> forall a, aget id pread = Some a -> x = mem_read src a sg) /\
-  (forall id a x, ~ In (MWrite id a x) (p_out pss ++ pends)).
+  (forall id x, In (MData id x) (p_in pss) -> forall a, aget id pread = Some a -> x = mem_read src a sg).
 
 (** staging buffer: every valid chunk holds its granule of the source memory *)
 Definition BB (b : buffer) (src : list N) (saddr sg : N) : Prop :=
@@ -45,7 +45,12 @@ Definition no_writes (d : dm) (pi po : list mreq) : Prop :=
   forall s, s <= 1 -> forall id a x, ~ In (MWrite id a x) (p_out (port_of d s) ++ pick s pi po).
 
 Record cinv (d : dm) (mi mo : list N) (pi po : list mreq) : Prop := mk_cinv {
-  c_ss : d_sside d <= 1; c_ds : d_dside d <= 1; c_ne : d_sside d <> d_dside d;
+  c_ss : d_sside d <= 1; c_ds : d_dside d <= 1;
+  (* two different sides, or two disjoint ranges of one side *)
+  c_sep : d_sside d <> d_dside d \/
+          v_saddr (d_req d) + v_size (d_req d) <= v_daddr (d_req d) \/ v_daddr (d_req d) + v_size (d_req d) <= v_saddr (d_req d);
+  (* writes travel to the destination side only *)
+  c_nw : forall s, s <= 1 -> forall id a x, In (MWrite id a x) (p_out (port_of d s) ++ pick s pi po) -> s = d_dside d;
   c_fs : v_saddr (d_req d) + v_size (d_req d) <= N.of_nat (length (pick (d_sside d) mi mo));
   c_fd : v_daddr (d_req d) + v_size (d_req d) <= N.of_nat (length (pick (d_dside d) mi mo));
   c_r : RB (port_of d (d_sside d)) (pick (d_sside d) pi po) (d_pread d) (pick (d_sside d) mi mo) (d_sg d);
@@ -75,4 +80,52 @@ Lemma port_of_with_port d s p s' : s <= 1 -> s' <= 1 ->
 Proof.
   intros H H'. unfold port_of, pick, with_port. cbn [d_inside d_outside].
   destruct (s =? 0) eqn:E, (s' =? 0) eqn:E'; destruct (s =? s') eqn:E''; try reflexivity; lia.
+Qed.
+
+(** ---- transfer of the blocks between ports *)
+Lemma RB_mono p pend p' pend' pr pr' src sg :
+  (forall id a n, In (MRead id a n) (p_out p' ++ pend') -> In (MRead id a n) (p_out p ++ pend)) ->
+  (forall id x, In (MData id x) (p_in p') -> In (MData id x) (p_in p)) ->
+  (forall k v, aget k pr' = Some v -> aget k pr = Some v) ->
+  RB p pend pr src sg -> RB p' pend' pr' src sg.
+Proof.
+  intros H1 H2 H3 [R1 R2]. split.
+  - intros id a n Hin a' Ha'. apply (R1 id a n (H1 _ _ _ Hin) a' (H3 _ _ Ha')).
+  - intros id x Hin a Ha. apply (R2 id x (H2 _ _ Hin) a (H3 _ _ Ha)).
+Qed.
+
+Lemma WB_eqw p pend p' pend' pw wr src dst sa da dg :
+  (forall id a x, In (MWrite id a x) (p_out p' ++ pend') <-> In (MWrite id a x) (p_out p ++ pend)) ->
+  WB p pend pw wr src dst sa da dg -> WB p' pend' pw wr src dst sa da dg.
+Proof.
+  intros H [W1 W2]. split.
+  - intros id a x Hin. apply (W1 id a x). apply H. exact Hin.
+  - intros o H1 H2. destruct (W2 o H1 H2) as [L|[id Hin]]; [left; exact L|right; exists id; apply H; exact Hin].
+Qed.
+
+(** the head of the incoming buffer of side [s0] is taken *)
+Definition popped (d : dm) (s0 : N) (rest : list mrsp) : dm :=
+  with_port d s0 (mk_port rest (p_out (port_of d s0)) (p_cap (port_of d s0))).
+
+Lemma popped_ports d s0 x rest s : s0 <= 1 -> s <= 1 -> p_in (port_of d s0) = x :: rest ->
+  p_out (port_of (popped d s0 rest) s) = p_out (port_of d s) /\
+  (forall r, In r (p_in (port_of (popped d s0 rest) s)) -> In r (p_in (port_of d s))).
+Proof.
+  intros H0 Hs Hin. unfold popped. rewrite port_of_with_port by assumption. destruct (s0 =? s) eqn:E.
+  - assert (s = s0) by lia. subst s. cbn [p_out p_in]. split; [reflexivity|]. intros r Hr. rewrite Hin. right. exact Hr.
+  - split; [reflexivity|tauto].
+Qed.
+
+(** one more request is put on the port of side [s0] *)
+Definition sent (d : dm) (s0 : N) (m : mreq) : dm :=
+  with_port d s0 (mk_port (p_in (port_of d s0)) (p_out (port_of d s0) ++ [m]) (p_cap (port_of d s0))).
+
+Lemma sent_ports d s0 m s pend : s0 <= 1 -> s <= 1 ->
+  p_in (port_of (sent d s0 m) s) = p_in (port_of d s) /\
+  (forall y, In y (p_out (port_of (sent d s0 m) s) ++ pend) <-> (s = s0 /\ y = m) \/ In y (p_out (port_of d s) ++ pend)).
+Proof.
+  intros H0 Hs. unfold sent. rewrite port_of_with_port by assumption. destruct (s0 =? s) eqn:E.
+  - assert (s = s0) by lia. subst s. cbn [p_out p_in]. split; [reflexivity|]. intro y.
+    rewrite !in_app_iff. cbn [In]. split; [intros [[H|[H|[]]]|H]; auto|intros [[_ H]|[H|H]]; auto].
+  - split; [reflexivity|]. intro y. split; [auto|]. intros [[H _]|H]; [lia|exact H].
 Qed.
